@@ -18,31 +18,32 @@ CONSTANTS KeySet, ValSet,
           Foreign,      \* "near": d differs from c in at most one key; "all": every d
           BugNoHash
 
-VARIABLES c, d
-vars == <<c, d>>
+VARIABLES c, d, stage
+vars == <<c, d, stage>>
 
 Contents == [KeySet -> ValSet \cup {Nil}]
 Pairs(f) == {<<k, f[k]>> : k \in {k \in DOMAIN f : f[k] # Nil}}
 Near(f) == {g \in Contents : Cardinality({k \in KeySet : f[k] # g[k]}) <= 1}
+NoContent == [k \in KeySet |-> Nil]
 
-\* one initial state; the pairs are successors so that TLC's workers share the invariant evaluation
-Init == /\ c = [k \in KeySet |-> Nil]
-        /\ d = [k \in KeySet |-> Nil]
-Next == /\ c' \in Contents
-        /\ d' \in (IF Foreign = "all" THEN Contents ELSE Near(c'))
+\* a two-level fan-out (choose c, then d) so that TLC's workers share the evaluation of the invariants,
+\* which are judged on the leaves (stage 2)
+Init == c = NoContent /\ d = NoContent /\ stage = 0
+Next == \/ stage = 0 /\ c' \in Contents /\ d' = d /\ stage' = 1
+        \/ stage = 1 /\ d' \in (IF Foreign = "all" THEN Contents ELSE Near(c)) /\ c' = c /\ stage' = 2
 Spec == Init /\ [][Next]_vars
 
 Tc == Build(Pairs(c))
 Td == Build(Pairs(d))
 
-Complete == \A k \in KeySet : c[k] # Nil => Verify(Tc, k, ProveSet(Tc, k)) = c[k]
+Complete == stage = 2 => \A k \in KeySet : c[k] # Nil => Verify(Tc, k, ProveSet(Tc, k)) = c[k]
 
-Sound == \A k \in KeySet, k2 \in KeySet :
+Sound == stage = 2 => \A k \in KeySet, k2 \in KeySet :
             \A S \in SUBSET (ProveSet(Tc, k) \cup ProveSet(Td, k2)) :
                 SoundOutcome(Pairs(c), k, VWalk(Tc, k, S, BugNoHash))
 
 \* dropping any node of a proof makes it fail (the proof is minimal): not demanded by the property, a fact about
 \* the design that the tampering family "drop a node" relies on to be non-trivial
-Minimal == \A k \in KeySet : c[k] # Nil =>
+Minimal == stage = 2 => \A k \in KeySet : c[k] # Nil =>
               \A n \in ProveSet(Tc, k) : Verify(Tc, k, ProveSet(Tc, k) \ {n}) = Nil
 =============================================================================
